@@ -6,7 +6,7 @@ ID = "C14"
 LEAN_MODULE = "Ctrmml.Properties.C14"
 THEOREMS = ["C14_inv_histories_partial", "C14_content_stable", "C14_fresh_disjoint", "C14_bank_rule", "C14_dedupe",
             "C14_dedupe_complete", "C14_header_roundtrip", "C14_reader_total", "C14_add_total", "C14_wav_decode",
-            "C14_tag_window_partial", "C14_offset_window_counterexample"]
+            "C14_tag_window_partial", "C14_offset_fresh_stored", "C14_offset_window_counterexample"]
 LEVEL = "proof"
 STREAM = "wave.ops"
 CHUNK = 40
